@@ -329,6 +329,12 @@ func (fr *frame) ifConvert(instr *ssa.If, cond *sym.Term) (k continuation, done 
 	savedPrev := fr.prevBlock
 	defer func() {
 		if p := recover(); p != nil {
+			switch p.(type) {
+			case runtimeErr, targetPanic:
+				// a trap in one arm of a region that is being evaluated speculatively: give up
+				// the conversion and branch normally (the trap is then hit, or not, on its own path)
+				p = regionAbort{"trap in speculated arm"}
+			}
 			if _, ok := p.(regionAbort); ok && outer == nil {
 				fr.block, fr.prevBlock, fr.guard = B, savedPrev, outer
 				k, done = 0, false
